@@ -45,18 +45,20 @@ int main(int argc, char** argv) {
     std::vector<std::string> inputs{""}; const char al[] = {'i', 'f', 'a', '7', '+', ';', '\x01', ' ', '\n', '?', '\t'};
     for (size_t lo = 0, l = 0; l < (size_t)n; ++l) { size_t hi = inputs.size(); for (size_t i = lo; i < hi; ++i) for (char c : al) inputs.push_back(inputs[i] + c); lo = hi; }
     for (const char* x : {"if a;7+7;\x01;", "if if;", "if a;\n7+;", "77+7;\n\n  ifa a;", "if a; 7 + 77 ;\n\x01 ; ?"}) inputs.push_back(x);
+    // byte sequences a maintainer might be tempted to treat specially: they are ordinary unexpected characters
+    for (const char* sq : {"\xef\xbb\xbf", "\xff\xfe", "\xfe\xff", "\xc2\xa0", "\xc2\x85", "\xe2\x80\xa8", "\x1a", "\x7f", "\xa0", "\x0c", "\x0b", "\x0d"}) { std::string q(sq); for (const std::string& x : {q, q + "if a;", "if a;" + q, "if" + q + "a;", q + q + "7+7;"}) inputs.push_back(x); }
     long cases = 0, checks = 0, fails = 0, accepted = 0, lexerr = 0, synerr = 0; std::string first;
     for (int opt = 0; opt < 3; ++opt) for (const std::string& in : inputs) {
         // option combinations: default; skip_newline off (newline is then an unexpected character, tab and space are still skipped); skip_whitespace off
         const bool skip_ws = opt != 2, skip_nl = opt != 1;
-        if (opt && in.size() > (size_t)(n > 3 ? n - 1 : n)) continue;
+        if (opt && in.size() > (size_t)(n > 3 ? n - 1 : n) && (unsigned char)in[0] < 0x80 && in.find('\x1a') == std::string::npos) continue;
         ++cases;
         // reference tokenizer
         std::vector<ref::Tok> toks; std::vector<std::pair<int, int>> pos; bool lexfail = false; std::pair<int, int> failpos{0, 0}; char failbyte = 0;
         size_t i = 0; int line = 1, col = 1;
         auto adv = [&](size_t to) { for (; i < to; ++i) { if (in[i] == '\n') { ++line; col = 1; } else ++col; } };
         while (true) {
-            size_t q = i; while (skip_ws && q < in.size() && (in[q] == ' ' || in[q] == '\t' || (in[q] == '\n' && skip_nl))) ++q; adv(q);
+            size_t q = i; while (skip_ws && q < in.size() && (in[q] == ' ' || in[q] == '\t' || in[q] == '\v' || in[q] == '\f' || in[q] == '\r' || (in[q] == '\n' && skip_nl))) ++q; adv(q);
             if (i >= in.size()) break;
             char c = in[i]; int term = -1; size_t len = 0;
             if (c >= 'a' && c <= 'z') { size_t e = i; while (e < in.size() && in[e] >= 'a' && in[e] <= 'z') ++e; len = e - i; term = (len == 2 && in[i] == 'i' && in[i + 1] == 'f') ? 0 : 1; }
